@@ -565,6 +565,109 @@ void cleanup_tmpdir()
     g_tmpdir.clear();
 }
 
+// A z3 process kept alive per worker ("z3 -in"): process start-up, not solving, dominates thousands of small NRA queries.
+// Each query is followed by (reset); a query that does not answer within its cap gets the process killed (hard cap).
+struct PersistentZ3
+{
+    pid_t pid = -1;
+    int to_fd = -1, from_fd = -1;
+    std::string buf;
+    bool start()
+    {
+        int in_pipe[2], out_pipe[2];
+        if (pipe(in_pipe) || pipe(out_pipe))
+            return false;
+        pid = fork();
+        if (pid == 0)
+        {
+            dup2(in_pipe[0], 0);
+            dup2(out_pipe[1], 1);
+            dup2(out_pipe[1], 2);
+            close(in_pipe[0]);
+            close(in_pipe[1]);
+            close(out_pipe[0]);
+            close(out_pipe[1]);
+            execlp("z3", "z3", "-in", "-smt2", "-memory:6000", (char*) nullptr);
+            _exit(127);
+        }
+        close(in_pipe[0]);
+        close(out_pipe[1]);
+        to_fd = in_pipe[1];
+        from_fd = out_pipe[0];
+        buf.clear();
+        return pid > 0;
+    }
+    void stop()
+    {
+        if (pid > 0)
+        {
+            kill(pid, SIGKILL);
+            waitpid(pid, nullptr, 0);
+            close(to_fd);
+            close(from_fd);
+        }
+        pid = -1;
+    }
+    // returns false on timeout / failure (process is then stopped)
+    bool query(const std::string& text, double cap, std::string& out)
+    {
+        if (pid <= 0 && !start())
+            return false;
+        static const char* END = "symx-end-of-answer";
+        std::string msg = text + "(echo \"" + END + "\")\n(reset)\n";
+        size_t off = 0;
+        while (off < msg.size())
+        {
+            ssize_t w = write(to_fd, msg.data() + off, msg.size() - off);
+            if (w <= 0)
+            {
+                stop();
+                return false;
+            }
+            off += w;
+        }
+        double deadline = now() + cap;
+        buf.clear();
+        while (true)
+        {
+            size_t e = buf.find(END);
+            if (e != std::string::npos)
+            {
+                out = buf.substr(0, e);
+                // strip the quote that precedes the echoed marker in some z3 versions
+                while (!out.empty() && (out.back() == '"' || out.back() == '\n' || out.back() == ' '))
+                    out.pop_back();
+                out += "\n";
+                return true;
+            }
+            double left = deadline - now();
+            if (left <= 0)
+            {
+                stop();
+                return false;
+            }
+            pollfd pf{from_fd, POLLIN, 0};
+            int pr = poll(&pf, 1, (int) std::min(1000.0, left * 1000 + 1));
+            if (pr < 0)
+            {
+                stop();
+                return false;
+            }
+            if (pr == 0)
+                continue;
+            char tmp[65536];
+            ssize_t n = read(from_fd, tmp, sizeof tmp);
+            if (n <= 0)
+            {
+                stop();
+                return false;
+            }
+            buf.append(tmp, n);
+        }
+    }
+};
+PersistentZ3 g_z3;
+
 struct SolveResult
 {
     std::string verdict;  // sat / unsat / unknown
@@ -719,15 +822,29 @@ SolveResult solve(const std::vector<z3::expr>& cons, bool want_model, bool feasi
         attempts.clear();
         attempts.push_back({"z3-4.8.12", "", std::string("timeout -k 1 ") + capbuf + " z3 -memory:6000 " + file + " 2>&1", g_cap_feas});
     }
+    bool first = true;
     for (const Attempt& a : attempts)
     {
         if (a.cap <= 0)
             continue;
+        std::string out;
+        if (first && !getenv("SYMX_NO_PERSISTENT"))
         {
-            std::ofstream f(file);
-            f << a.head << body << getv;
+            // first attempt: the worker's persistent z3 4.8.12 process
+            first = false;
+            std::string text = "(set-option :pp.decimal true)\n(set-option :pp.decimal_precision 25)\n" + body + getv;
+            if (!g_z3.query(text, a.cap, out))
+                out = "timeout";
         }
-        std::string out = run_cmd(a.cmd);
+        else
+        {
+            first = false;
+            {
+                std::ofstream f(file);
+                f << a.head << body << getv;
+            }
+            out = run_cmd(a.cmd);
+        }
         parse_cli_output(out, r, syms);
         r.solver = a.name;
         if (g_verbose)
@@ -737,7 +854,7 @@ SolveResult solve(const std::vector<z3::expr>& cons, bool want_model, bool feasi
     }
     if (const char* keep = getenv("SYMX_KEEP_UNKNOWN"))
     {
-        if (r.verdict == "unknown")
+        if (r.verdict == "unknown" || (getenv("SYMX_KEEP_SAT") && r.verdict == "sat" && want_model))
         {
             static int k = 0;
             std::string dst = std::string(keep) + "/unknown_" + std::to_string(getpid()) + "_" + std::to_string(k++) + ".smt2";
@@ -824,6 +941,7 @@ z3::expr Real::term() const { return id ? P->terms[id] : numeral(c); }
 Real::operator bool() const { return *this != Real(0); }
 
 Real from_expr(const z3::expr& e, uint8_t sign) { return mk(e, sign); }
+Real exact_mul(const Real& a, const Real& b) { return mk((a.term() * b.term()).simplify(), sign_mul(a.sign(), b.sign())); }
 
 Real Real::operator-() const
 {
@@ -1287,6 +1405,14 @@ bool decide(const z3::expr& cond)
     P->decisions.push_back({out, forced, h});
     P->decided[cid] = out;
     return out;
+}
+
+bool choose(const std::string& name)
+{
+    if (g_concrete)
+        return model_value(name) > 0;
+    Real b = fresh(name);
+    return decide(lt(Real(0), b));
 }
 
 void assume(const z3::expr& cond, const std::string& why)
@@ -1893,6 +2019,7 @@ void worker_loop(int fd, const std::vector<Case>& cases)
         fflush(out);
     }
     free(line);
+    g_z3.stop();
     cleanup_tmpdir();
     _exit(0);
 }
@@ -2005,6 +2132,7 @@ int run_main(int argc, char** argv, const std::vector<Case>& all_cases)
             }
             aggs[ci].wall = now() - t0;
         }
+        g_z3.stop();
         cleanup_tmpdir();
     }
     else
